@@ -143,19 +143,26 @@ def r2_criteria(repo, report):
                               why="the fraction criterion is evaluated as a product with the read length: rounding of cutoff * len moves reads whose N fraction equals the cutoff")
                 else:
                     table("TooManyN", roles, exp, "fraction mode: never for the empty read, else iff n/len > cutoff; count mode: iff n > cutoff")
-    # expected errors
+    # expected errors (the call may carry the quality base as a second argument; its presence is C11.R2 'quality base')
+    import re as _re
+
+    def ee_term(cname):
+        cls_, f_, rows_ = _test_rows(repo, cname)
+        found = sorted({m_.group(0) for r in rows_ for k in r.valuation for m_ in _re.finditer(r"expected_errors\(READ\.qualities[^()]*\)", k)})
+        return found[0] if len(found) == 1 else "expected_errors(READ.qualities)"
+
     if "TooManyExpectedErrors" in preds:
-        attrs = list(_init_attr_from_param(repo, "TooManyExpectedErrors").values())
+        attrs = [a for a in _init_attr_from_param(repo, "TooManyExpectedErrors").values() if "base" not in a]  # the quality base is a parameter, not the threshold
         if len(attrs) == 1:
-            roles = {"d": Sign(Lin.atom("expected_errors(READ.qualities)") - Lin.atom(attrs[0]))}
+            roles = {"d": Sign(Lin.atom(ee_term("TooManyExpectedErrors")) - Lin.atom(attrs[0]))}
             table("TooManyExpectedErrors", roles, lambda rv: rv["d"] > 0, "filtered iff expected_errors(qualities) > max (strictly)")
         else:
             report.unrecognised("C11.R2", "TooManyExpectedErrors.__init__", f"threshold attribute not found {attrs}")
     if "TooHighAverageErrorRate" in preds:
-        attrs = list(_init_attr_from_param(repo, "TooHighAverageErrorRate").values())
+        attrs = [a for a in _init_attr_from_param(repo, "TooHighAverageErrorRate").values() if "base" not in a]  # the quality base is a parameter, not the threshold
         if len(attrs) == 1:
             roles = {"empty": Sign(Lin.atom("len(READ)"), values=(0, 1)),
-                     "d": Sign(Lin.atom("(expected_errors(READ.qualities)/len(READ))") - Lin.atom(attrs[0]))}
+                     "d": Sign(Lin.atom("(" + ee_term("TooHighAverageErrorRate") + "/len(READ))") - Lin.atom(attrs[0]))}
             table("TooHighAverageErrorRate", roles, lambda rv: False if rv["empty"] == 0 else rv["d"] > 0, "never for the empty read; else iff expected_errors/len > max (strictly)")
         else:
             report.unrecognised("C11.R2", "TooHighAverageErrorRate.__init__", f"threshold attribute not found {attrs}")
